@@ -25,6 +25,9 @@ When(cond, cs) == IF cond THEN cs ELSE <<>>
 
 BuiltinSigLen == 64
 
+\* key types whose decoding rule is identical are evaluated once
+KClass(kt) == IF KBase(kt) \in {"k256", "libsecp"} THEN "k256" ELSE KBase(kt)
+
 (***************************************************************************)
 (* Checks on any record value the library handed out                       *)
 (***************************************************************************)
@@ -146,7 +149,11 @@ DecodeChecks(e) ==
       ilen == FirstItemLen(b, 1)
       suffix == ilen > 0 /\ ilen < Len(b)
       n == Len(e.kts)
-      D(q) == Decode(e.kts[q], b, e.facts)
+      \* k256 and libsecp follow the same rule: evaluate the specification once per class of key types
+      P == Parse(b)
+      fit == FactsFit(P, e.facts)
+      Dc == [cl \in {KClass(e.kts[q]) : q \in 1..n} |-> Judge(cl, P, e.facts, fit)]
+      D(q) == Dc[KClass(e.kts[q])]
       perKt(q) ==
         IF suffix /\ Len(e.alone) = n
         THEN \* the item alone is judged for C01/C02; the buffer with its suffix for C13
@@ -157,11 +164,10 @@ DecodeChecks(e) ==
                       e.res[q].kind = "ok" => e.res[q].rest = Len(b) - ilen)>>
         ELSE OutcomeChecks(e.kts[q], b, e.res[q], D(q), e.tab, "C02", RejProp(D(q)))
       \* C11: key types that the specification treats alike must have behaved alike
-      agree == \A q1, q2 \in 1..n :
-                 (D(q1).verdict = "accept" /\ D(q2).verdict = "accept")
-                   => (e.res[q1].kind = "ok" /\ e.res[q2].kind = "ok" => e.res[q1].core = e.res[q2].core)
-      isolated == \A q \in 1..n :
-                 (D(q).verdict = "reject" /\ D(q).why = "pk") => e.res[q].kind # "ok"
+      verd == [q \in 1..n |-> [v |-> D(q).verdict, why |-> D(q).why]]
+      accCores == {e.res[q].core : q \in {k \in 1..n : verd[k].v = "accept" /\ e.res[k].kind = "ok"}}
+      agree == Cardinality(accCores) <= 1
+      isolated == \A q \in 1..n : (verd[q].v = "reject" /\ verd[q].why = "pk") => e.res[q].kind # "ok"
       ext == IF e.ext = <<>> THEN <<>>
              ELSE LET qb == CHOOSE q \in 1..n : e.kts[q] = e.kt IN
                   IF e.res[qb].kind = "ok" THEN ExtChecks(e.tab[e.res[qb].core], e.ext[1], e.tab) ELSE <<>>
@@ -185,14 +191,17 @@ TextChecks(e) ==
       cands == {i \in 1..Len(e.fcands) : e.fcands[i].bytes = P.bytes}
       F == IF P.ok /\ cands # {} THEN e.fcands[CHOOSE i \in cands : TRUE].facts ELSE <<>>
       n == Len(e.kts)
-      D(q) == Decode(e.kts[q], P.bytes, F)
+      PP == Parse(P.bytes)
+      fit == ~PP.ok \/ (cands # {} /\ FactsFit(PP, F))
+      Dc == [cl \in {KClass(e.kts[q]) : q \in 1..n} |-> Judge(cl, PP, F, fit)]
+      D(q) == Dc[KClass(e.kts[q])]
       whole(q) == D(q).consumed = Len(P.bytes)
       one(q) ==
         LET o == e.res[q] IN
         <<Chk("C03", "parse_panics", o.kind # "panic")>>
         \o (IF ~P.ok THEN <<Chk("C12", "malformed_text_accepted", o.kind # "ok")>>
-            ELSE <<Chk("TOOL", "text_facts", cands # {} /\ ~D(q).fm)>>
-              \o When(cands # {} /\ ~D(q).fm,
+            ELSE <<Chk("TOOL", "text_facts", fit)>>
+              \o When(fit,
                 <<Chk("C12", "valid_text_rejected", (D(q).verdict = "accept" /\ whole(q)) => o.kind # "err"),
                   Chk("C12", "text_with_trailing_bytes_accepted",
                       (D(q).verdict = "accept" /\ ~whole(q)) => o.kind # "ok"),
